@@ -33,6 +33,9 @@ type C18Item struct {
 	Str  string `json:"str,omitempty"`  // hex, without the terminating '$'
 	Fill string `json:"fill,omitempty"` // hex filler instructions
 	Port uint8  `json:"port,omitempty"`
+	// Reg: outc / inc - which register of OUT (C),r / IN r,(C): 0 B, 1 C, 2 D, 3 E, 4 H, 5 L, 7 A
+	// (absent in older replay files: outc then means D)
+	Reg *uint8 `json:"reg,omitempty"`
 }
 
 // C18Sc is a C18 scenario.
@@ -193,7 +196,8 @@ func c18GenOne(r *world.Rng, tier string, n int) *C18Sc {
 			// console output through the other OUT forms: OUT (C),r to port 0 and OTIR to port 0
 			// (B = count, 0 means 256), from a string stored like the function-9 ones
 			if r.Bool() {
-				sc.Items = append(sc.Items, C18Item{Kind: "outc", Ch: r.Byte()})
+				reg := []uint8{0, 1, 2, 3, 4, 5, 7}[r.Intn(7)]
+				sc.Items = append(sc.Items, C18Item{Kind: "outc", Ch: r.Byte(), Reg: &reg})
 			} else {
 				l := r.Pick(1, 2, 3, 17, 255, 256)
 				b := r.Bytes(l)
@@ -203,7 +207,14 @@ func c18GenOne(r *world.Rng, tier string, n int) *C18Sc {
 				}
 			}
 		default:
-			sc.Items = append(sc.Items, C18Item{Kind: "in", Port: r.Byte()})
+			// port reads, port 0 included (it is the console only for output), also through IN r,(C)
+			port := uint8(r.Pick(0, 0, 1, 255, int(r.Byte()), int(r.Byte())))
+			if r.Chance(1, 3) {
+				reg := []uint8{0, 1, 2, 3, 4, 5, 7}[r.Intn(7)]
+				sc.Items = append(sc.Items, C18Item{Kind: "inc", Port: port, Reg: &reg})
+			} else {
+				sc.Items = append(sc.Items, C18Item{Kind: "in", Port: port})
+			}
 		}
 	}
 	if r.Chance(1, 12) {
@@ -336,9 +347,23 @@ func c18Assemble(sc *C18Sc) (prog []uint8, rets []uint16, expect []byte, warns i
 		case "in":
 			prog = append(prog, 0xdb, it.Port)
 			warns++
+		case "inc":
+			prog = append(prog, 0x0e, it.Port, 0xed, 0x40|*it.Reg<<3) // LD C,port ; IN r,(C)
+			warns++
 		case "outc":
-			prog = append(prog, 0x16, it.Ch, 0x0e, 0x00, 0xed, 0x51) // LD D,ch ; LD C,0 ; OUT (C),D
-			expect = append(expect, it.Ch)
+			reg := uint8(2)
+			if it.Reg != nil {
+				reg = *it.Reg
+			}
+			switch reg {
+			case 1:
+				// OUT (C),C on port 0 sends the 0 that selects the port; B holds something else
+				prog = append(prog, 0x06, it.Ch, 0x0e, 0x00, 0xed, 0x49) // LD B,ch ; LD C,0 ; OUT (C),C
+				expect = append(expect, 0x00)
+			default:
+				prog = append(prog, 0x06|reg<<3, it.Ch, 0x0e, 0x00, 0xed, 0x41|reg<<3) // LD r,ch ; LD C,0 ; OUT (C),r
+				expect = append(expect, it.Ch)
+			}
 		case "otir":
 			s, _ := hex.DecodeString(it.Str)
 			prog = append(prog, 0x21, uint8(it.Addr), uint8(it.Addr>>8), 0x01, 0x00, uint8(len(s)), 0xed, 0xb3) // LD HL,addr ; LD BC,len<<8|0 ; OTIR
@@ -465,6 +490,17 @@ func c18Run(sc *C18Sc, env *Env, bubble bool) (res *Violation) {
 		c.SP -= shift
 		c.Regs.SP -= shift
 		sc = &c
+	}
+	// (an image whose BDOS sits so low that this scenario's program or strings do not fit below it: not a case)
+	hi := int(tinycpm.Start) + len(prog)
+	for _, st := range strs {
+		if b, _ := st.Bytes(); int(st.Addr)+len(b) > hi {
+			hi = int(st.Addr) + len(b)
+		}
+	}
+	if hi+64 > int(top) {
+		env.Class("stop/program-does-not-fit-below-the-bdos")
+		return nil
 	}
 	for i, b := range prog {
 		mem.Set(tinycpm.Start+uint16(i), b)
